@@ -34,7 +34,8 @@ Mn(a, b) == IF a < b THEN a ELSE b
 Mx0(a) == IF a < 0 THEN 0 ELSE a
 P(k, i) == (pos[k][i] % M) + 1            \* 1-based cell index of the i-th position of key k
 
-EmptyF == [cells |-> [p \in 1..M |-> 0], n |-> 0, out |-> [k \in Keys |-> 0], sat |-> FALSE, rl |-> 0, nest |-> FALSE, ad |-> 0]
+EmptyF == [cells |-> [p \in 1..M |-> 0], n |-> 0, out |-> [k \in Keys |-> 0], sat |-> FALSE, rl |-> 0, nest |-> FALSE, ad |-> 0, npin |-> FALSE]
+   \* npin (history oracle): the counter has been pinned at its lower limit 0 since the last clear (possible only after it started as an estimate)
    \* nest: the counter started as the estimate of an adopted result;  ad: number of adoptions (bounded, like rl)
    \* sat (history oracle): some cell or the counter has been clamped since the last clear
    \* rl: number of export+load round trips the object went through (part of the state, so histories continue on the restored object)
@@ -52,7 +53,8 @@ AddCells(cells, k, amt, i, mn) ==
 AddF(f, k, amt) ==
   LET r == AddCells(f.cells, k, amt, 1, -1) IN
   [f |-> [cells |-> r[1], n |-> Mn(f.n + amt, TotMax), out |-> [f.out EXCEPT ![k] = @ + amt],
-          sat |-> f.sat \/ f.n + amt >= TotMax \/ (Counting /\ \E p \in 1..M : r[1][p] >= CellMax), rl |-> f.rl, nest |-> f.nest, ad |-> f.ad],
+          sat |-> f.sat \/ f.n + amt >= TotMax \/ (Counting /\ \E p \in 1..M : r[1][p] >= CellMax), rl |-> f.rl, nest |-> f.nest, ad |-> f.ad,
+          npin |-> f.npin],
    ret |-> IF Counting THEN r[2] ELSE -1]
 
 Est(f, k) ==      \* check(): minimum over the key's cells (1/0 for the plain filter)
@@ -71,7 +73,7 @@ RemF(f, k, amt) ==
   ELSE LET t == Mn(amt, mv) IN
        [f |-> [cells |-> SubCells(f.cells, k, t, 1), n |-> Mx0(f.n - t),      \* the counter never goes below its lower limit 0 (possible only
                out |-> [f.out EXCEPT ![k] = IF @ >= t THEN @ - t ELSE 0],       \* when it started as an estimate: an estimate counts distinct keys)
-               sat |-> f.sat \/ f.n - t < 0, rl |-> f.rl, nest |-> f.nest, ad |-> f.ad],
+               sat |-> f.sat, rl |-> f.rl, nest |-> f.nest, ad |-> f.ad, npin |-> f.npin \/ f.n - t < 0],
         ret |-> mv - t]
 
 -----------------------------------------------------------------------------
@@ -89,7 +91,7 @@ Adopted(a, b, old, op) ==
   LET cells == IF op = "uni" THEN UnionCells(a, b) ELSE InterCells(a, b) IN
   [cells |-> cells, n |-> EstTab[Cardinality({p \in 1..M : cells[p] > 0}) + 1],
    out |-> [k \in Keys |-> IF op = "uni" THEN a.out[k] + b.out[k] ELSE IF a.out[k] > 0 /\ b.out[k] > 0 THEN a.out[k] + b.out[k] ELSE 0],
-   sat |-> a.sat \/ b.sat \/ (Counting /\ \E p \in 1..M : cells[p] >= CellMax), rl |-> old.rl, nest |-> TRUE, ad |-> old.ad + 1]
+   sat |-> a.sat \/ b.sat \/ (Counting /\ \E p \in 1..M : cells[p] >= CellMax), rl |-> old.rl, nest |-> TRUE, ad |-> old.ad + 1, npin |-> FALSE]
 
 -----------------------------------------------------------------------------
 LegitRem(f, k, amt) == amt <= f.out[k] \/ Est(f, k) = 0
@@ -164,7 +166,7 @@ SaturatedStays == [][ Counting => \A w \in {"A", "B"} : \A p \in 1..M :
                         (fs[w].cells[p] = CellMax /\ last'.o[1] \notin {"clear", "int"}) => fs'[w].cells[p] = CellMax ]_vars   \* C16
 
 -----------------------------------------------------------------------------
-FView(f) == [cells |-> f.cells, n |-> f.n, out |-> f.out, sat |-> f.sat, nest |-> f.nest, est |-> [k \in Keys |-> Est(f, k)], bits |-> SetBits(f)]
+FView(f) == [cells |-> f.cells, n |-> f.n, out |-> f.out, sat |-> f.sat, nest |-> f.nest, npin |-> f.npin, est |-> [k \in Keys |-> Est(f, k)], bits |-> SetBits(f)]
 Emit == PrintT(ToJson([pos |-> pos, h |-> hist, a |-> last'.o, ret |-> last'.ret,
                        e |-> [A |-> FView(fs'["A"]), B |-> FView(fs'["B"]),
                               U |-> UnionCells(fs'["A"], fs'["B"]), I |-> InterCells(fs'["A"], fs'["B"]),
